@@ -330,6 +330,137 @@ func c13Program(id string, cases []c13Case) *Program {
 	return p
 }
 
+const c13TwinDecls = `
+const twinScale = %d
+const twinTag = %q
+
+var (
+	TwinI  = 7 * twinScale
+	TwinS  = "twin" + twinTag
+	TwinSl = []int{twinScale, 2}
+	TwinM  = map[string]int{"k": twinScale}
+	TwinF  = 1.5 * twinScale
+	TwinA  = [2]int{twinScale, 1}
+)
+`
+
+// c13TwinProgram: two packages declare the same names with different values; the same
+// expression text is written in a set of each; injectors of one package use both. Also the
+// same pointer-valued composite written twice in one package.
+func c13TwinProgram(id string) (*Program, []string, [][2]string) {
+	p := &Program{ID: id, Module: ModulePath, Extra: map[string]string{}, Feat: map[string]string{"family": "twin-packages"}, RawDriver: true}
+	p.Pkgs = []*Pkg{{Name: "app", Dir: "app"}, {Name: "lib", Dir: "lib"}, {Name: "lib", Dir: "lib2"}}
+	exprs := []struct{ e, t string }{
+		{"TwinI", "int"}, {"TwinS", "string"}, {"TwinSl", "[]int"}, {"TwinM", "map[string]int"}, {"&TwinI", "*int"},
+		{"TwinI + 1", "int"}, {"[]int{TwinI, 3}", "[]int"}, {"TwinF", "float64"}, {"TwinA", "[2]int"}, {"TwinSl[0]", "int"},
+		{"map[string]string{TwinS: TwinS}", "map[string]string"}, {"-TwinI", "int"}, {"TwinS[1:]", "string"},
+	}
+	var keys []string
+	var injs, drv strings.Builder
+	injs.WriteString("//go:build wireinject\n// +build wireinject\n\npackage app\n\nimport (\n\t\"github.com/google/wire\"\n\tliba \"" + p.ImportPath(1) + "\"\n\tlibb \"" + p.ImportPath(2) + "\"\n)\n\n")
+	drv.WriteString("//go:build !wireinject\n// +build !wireinject\n\npackage app\n\nimport (\n\t\"" + ModulePath + "/tr\"\n\t_ \"" + p.ImportPath(1) + "\"\n\t_ \"" + p.ImportPath(2) + "\"\n)\n\nvar _ = tr.New\n\nfunc Scenarios() {\n")
+	for li, lib := range []struct {
+		idx   int
+		scale int
+		tag   string
+		alias string
+	}{{1, 1, "A", "liba"}, {2, 10, "B", "libb"}} {
+		var src strings.Builder
+		fmt.Fprintf(&src, "package lib\n\nimport (\n\t\"github.com/google/wire\"\n\t\"%s/tr\"\n)\n\nvar _ = tr.New\n", ModulePath)
+		fmt.Fprintf(&src, c13TwinDecls, lib.scale, lib.tag)
+		for k, ex := range exprs {
+			key := fmt.Sprintf("tw%d_%s", k, lib.tag)
+			fmt.Fprintf(&src, "var TwinSet%d = wire.NewSet(wire.Value(%s))\nvar _ = tr.Home(%q, %s)\n", k, ex.e, key, ex.e)
+			inj := fmt.Sprintf("Twin%d%s", k, lib.tag)
+			fmt.Fprintf(&injs, "func %s() %s {\n\tpanic(wire.Build(%s.TwinSet%d))\n}\n\n", inj, ex.t, lib.alias, k)
+			fmt.Fprintf(&drv, "\ttr.Injector(%q, %q, nil, func(c_ *tr.Call) {\n\t\tres_ := %s()\n\t\ttr.SameAsHome(%q, res_)\n\t})\n", id, inj, inj, key)
+			keys = append(keys, inj)
+		}
+		p.Extra[fmt.Sprintf("%d/twin.go", lib.idx)] = src.String()
+		_ = li
+	}
+	// the same pointer-valued expression written twice in the injector's package
+	p.Extra["0/decl.go"] = "package app\n\nimport \"" + ModulePath + "/tr\"\n\ntype Scratch struct{ N int }\n\nvar _ = tr.Home(\"twp1\", &Scratch{N: 1})\nvar _ = tr.Home(\"twp2\", &Scratch{N: 1})\nvar _ = tr.Home(\"twm1\", map[string]int{\"a\": 1})\nvar _ = tr.Home(\"twm2\", map[string]int{\"a\": 1})\n"
+	var pairs [][2]string
+	for _, pr := range []struct{ a, b, e, t, ka, kb string }{
+		{"ScratchOne", "ScratchTwo", "&Scratch{N: 1}", "*Scratch", "twp1", "twp2"},
+		{"MapOne", "MapTwo", "map[string]int{\"a\": 1}", "map[string]int", "twm1", "twm2"},
+	} {
+		for _, x := range [][2]string{{pr.a, pr.ka}, {pr.b, pr.kb}} {
+			fmt.Fprintf(&injs, "func %s() %s {\n\tpanic(wire.Build(wire.Value(%s)))\n}\n\n", x[0], pr.t, pr.e)
+			fmt.Fprintf(&drv, "\ttr.Injector(%q, %q, nil, func(c_ *tr.Call) {\n\t\tres_ := %s()\n\t\ttr.SameAsHome(%q, res_)\n\t})\n", id, x[0], x[0], x[1])
+			keys = append(keys, x[0])
+		}
+		pairs = append(pairs, [2]string{pr.a, pr.b})
+	}
+	drv.WriteString("}\n")
+	p.Extra["0/wire.go"] = injs.String()
+	p.Extra["0/zz_driver.go"] = drv.String()
+	return p, keys, pairs
+}
+
+// judgeTwin checks the twin-package program.
+func judgeTwin(rep *Report, pr *ProgResult, keys []string, pairs [][2]string) {
+	if pr == nil {
+		return
+	}
+	if pr.PreBad != "" {
+		rep.Incon = append(rep.Incon, "harness: twin program does not type-check: "+secondLine(pr.PreBad))
+		return
+	}
+	violate := func(clause, witness string) {
+		files := pr.P.Files(false)
+		if pr.GenFile != "" {
+			files[pr.P.ID+"/app/wire_gen.go"] = pr.GenFile
+		}
+		rep.Violate(pr.P.ID+"_"+strings.ReplaceAll(strings.Split(clause, ":")[0], " ", "_"), Issue{Prop: "C13", Clause: clause, Witness: witness, Sig: "C13:twin:" + strings.Split(clause, ":")[0]}, files, map[string]string{"wire_stderr.txt": pr.GenStderr})
+	}
+	if pr.Crash != "" {
+		violate("crash", pr.Crash)
+		return
+	}
+	if pr.Outcome == nil || !pr.Outcome.Wrote {
+		violate("call-free value expressions written identically in two packages were rejected", pr.GenStderr)
+		return
+	}
+	if pr.BuildErr != "" {
+		violate("accepted, but the generated package does not compile", pr.BuildErr)
+		return
+	}
+	addr := map[string]uint64{}
+	seen := map[string]bool{}
+	for _, ct := range pr.Calls {
+		for _, ev := range ct.Events {
+			if ev.Ev != "home_cmp" {
+				continue
+			}
+			seen[ct.Inj] = true
+			if !ev.Known || !ev.DeepEqual {
+				violate("value differs from the written expression evaluated in its own package: "+ct.Inj, fmt.Sprintf("injector %s returned %s, the expression in its home package is %s", ct.Inj, ev.Dd.Canon(), ev.Home.Canon()))
+				return
+			}
+			if ev.Dd != nil && ev.Dd.Addr != 0 {
+				addr[ct.Inj] = ev.Dd.Addr
+			}
+		}
+	}
+	for _, k := range keys {
+		if !seen[k] {
+			rep.Incon = append(rep.Incon, "twin program: no observation for "+k)
+			return
+		}
+		rep.Held("twin;" + k)
+	}
+	for _, pq := range pairs {
+		if addr[pq[0]] != 0 && addr[pq[0]] == addr[pq[1]] {
+			violate("two separately written value expressions share one instance: "+pq[0]+"/"+pq[1], fmt.Sprintf("%s and %s both return %#x", pq[0], pq[1], addr[pq[0]]))
+			return
+		}
+		rep.Held("twin-distinct;" + pq[0])
+	}
+	rep.Count("twin_package_values_compared", len(keys))
+}
+
 // CheckC13 — value providers.
 func CheckC13(e *Env) int {
 	t0 := time.Now()
@@ -427,6 +558,9 @@ func CheckC13(e *Env) int {
 	for _, g := range groups {
 		judgeValueGroup(rep, g.id, g.cases, res[g.id])
 	}
+	tp, tkeys, tpairs := c13TwinProgram("vtwin")
+	tres := RunPool(e, []*Program{tp}, PoolOpts{Execute: true, Name: "c13tw", BatchSize: 1})
+	judgeTwin(rep, tres[0], tkeys, tpairs)
 	return rep.Finish(t0)
 }
 
